@@ -325,7 +325,17 @@ TwoPass(case) ==
 (* of a well-formed DAG is evaluated once on its parents' outputs; nodes    *)
 (* that (transitively) depend on a post-state read see the overlay of all   *)
 (* mutations proposed by the non-deferred part.                             *)
-WellFormed(p) == BadNodes(p) = {} /\ Levels(p).ok
+\* Declarative well-formedness, independent of the operational BadNodes / Kahn: every node has a
+\* defined edge slice, every edge points at an existing node, no node reaches itself.
+EdgeSet(p) == UNION {{<<n, NodeEdges(p, n).es[i]>> : i \in 1..Len(NodeEdges(p, n).es)} : n \in NodeSet(p)}
+RECURSIVE ReachFrom(_, _, _, _)
+ReachFrom(EE, NN, S, seen) ==
+  LET next == {c \in NN : \E n \in S : <<n, c>> \in EE} \ seen IN
+  IF next = {} THEN seen ELSE ReachFrom(EE, NN, next, seen \cup next)
+WellFormed(p) ==
+  /\ \A n \in NodeSet(p) : NodeEdges(p, n).some
+  /\ \A n \in NodeSet(p) : \A i \in 1..Len(NodeEdges(p, n).es) : NodeEdges(p, n).es[i] < NumNodes(p)
+  /\ LET EE == EdgeSet(p) NN == NodeSet(p) IN \A n \in NN : n \notin ReachFrom(EE, NN, {n}, {})
 
 \* Out[n]: evaluation by recursion on the longest-path rank
 RECURSIVE RefOut(_, _, _, _, _)
